@@ -12,7 +12,7 @@ ASSUMPTIONS = [
     'weights positive',
 ]
 OUTSIDE = ['degrees > 3 (quick) / 4 (thorough)', 'knots that are only approximately removable (tolerance 1e-3 of Eq. 5.30)']
-BOUNDS = {'quick': 'curves p<=3 r<=p; surfaces degrees<=2 both directions; volumes degrees<=2; refine-then-remove curves p<=3; shifted knot vectors; insert/remove after a sibling',
+BOUNDS = {'quick': 'curves p<=3 r<=p; surfaces degrees<=2 both directions; volumes degrees<=2; refine-then-remove curves p<=3; shifted knot vectors; insert/remove after a sibling; knot vectors times a symbolic factor (domains down to 4e-6)',
           'thorough': 'curves p<=4; surfaces to (3,2); volumes all directions, rational'}
 
 
